@@ -495,14 +495,21 @@ def _stack(
     if maybe_dense_stack is None:
         maybe_dense_stack = lazy_legacy()
     td_types = [type(td) for td in list_of_tensordicts]
-    is_tc = any(_is_tensorclass(td_type) for td_type in td_types)
+    # the first operand decides the class of the result (as for torch.cat); the other
+    # operands may be tensorclasses or plain tensordicts
+    is_tc = _is_tensorclass(td_types[0])
     if all(_pass_through(td) for td in list_of_tensordicts):
         return type(list_of_tensordicts[0])._stack_non_tensor(
             list_of_tensordicts, dim=dim
         )
     list_of_tensordicts_orig = list_of_tensordicts
+    if any(_is_tensorclass(td_type) for td_type in td_types):
+        # (a plain TensorDict has a `_tensordict` attribute too: its storage dict)
+        list_of_tensordicts = [
+            tc._tensordict if _is_tensorclass(type(tc)) else tc
+            for tc in list_of_tensordicts
+        ]
     if is_tc:
-        list_of_tensordicts = [tc._tensordict for tc in list_of_tensordicts]
         clz = type(list_of_tensordicts[0])
     elif issubclass(td_types[0], TensorDict):
         clz = td_types[0]
